@@ -176,8 +176,12 @@ def free_running(res, seconds):
                 prev = seen
                 polls += 1
             except Exception as e:  # noqa
-                res.violation("reader-fails-during-recording", "a free-running concurrent reader failed", inp,
-                              "no failure", repr(e)[:200])
+                msg = repr(e)
+                sig = "reader-fails-during-recording"
+                if reader is None and ("truncated file" in msg or "file signature not found" in msg
+                                       or "drf_properties" in msg):
+                    sig = "props-file-not-staged"     # construction hit a partial drf_properties.h5
+                res.violation(sig, "a free-running concurrent reader failed", inp, "no failure", msg[:200])
                 reader = None
                 polls += 1
     proc.communicate(timeout=60)
